@@ -585,6 +585,30 @@ def rule_gimbal(repo, tier):
         elif not same and not bound_angle:
             res.add(Finding('C11.KIND', f, '`%s` tests `%s` while the pitch is asin(`%s`): the singular band is decided on another quantity than the one '
                             'whose asin is returned' % (src(n)[:60], src(q)[:30], src(sine)[:30]), node=n))
+    # the argument of asin is clamped to [-1, 1] as the LAST operation before asin: rounding of the normalisation (division by the squared norm) can push
+    # |sin| above 1 at exact gimbal lock, and a clamp applied before that division no longer bounds what asin receives
+    arg = a.args[0] if a.args else a.func.value
+    for _ in range(3):
+        if isinstance(arg, ast.Name) and len(assigns.get(arg.id, [])) == 1:
+            arg = assigns[arg.id][0]
+    def is_clamp11(e):
+        if isinstance(e, ast.Call):
+            nm = (dotted(e.func) or (e.func.attr if isinstance(e.func, ast.Attribute) else '')).split('.')[-1]
+            if nm in ('clamp', 'clip', 'clamp_', 'clip_'):
+                vals = [x for x in list(e.args) + [k.value for k in e.keywords]]
+                lits = []
+                for v in vals:
+                    try:
+                        lits.append(ast.literal_eval(v))
+                    except (ValueError, SyntaxError):
+                        pass
+                return -1 in lits and 1 in lits
+        return False
+    okc = is_clamp11(arg)
+    res.inst({'function': f.fq, 'asin argument': src(arg)[:50], 'clamped to [-1, 1] as the last step': okc}, 'asin-clamp')
+    if not okc:
+        res.add(Finding('C11.KIND', f, 'the argument of asin, `%s`, is not a clamp(-1, 1) of the normalised sine: at exact gimbal lock the rounded quotient can exceed 1 and the '
+                        'pitch is NaN' % src(arg)[:50], node=a, construct='asin argument not clamped last'))
     return res
 
 
